@@ -90,7 +90,10 @@ func main() {
 	}
 	switch os.Args[1] {
 	case "run":
-		os.Exit(cmdRun(os.Args[2], os.Args[3:]))
+		stop := startProfile()
+		rc := cmdRun(os.Args[2], os.Args[3:])
+		stop()
+		os.Exit(rc)
 	case "replay":
 		if len(os.Args) < 4 {
 			fmt.Fprintln(os.Stderr, "usage: vcheck replay <ID> <file>")
@@ -185,7 +188,7 @@ func cmdRun(id string, args []string) int {
 	tier := fs.String("tier", envOr("VERIF_TIER", "quick"), "quick|thorough")
 	jobs := fs.Int("j", 0, "workers")
 	only := fs.String("entry", "", "run only this entry")
-	solver := fs.String("solver", "z3", "z3|z3-new|cvc5")
+	solver := fs.String("solver", "z3-new", "z3|z3-new|cvc5")
 	cross := fs.String("cross", "", "second solver for assertion queries")
 	trace := fs.Bool("trace", false, "trace calls")
 	noValidate := fs.Bool("no-validate", false, "skip native translator validation")
@@ -199,7 +202,10 @@ func cmdRun(id string, args []string) int {
 		}
 	}
 	if *cross == "" && *tier == "thorough" {
-		*cross = "z3-new"
+		*cross = "z3"
+		if *solver == "z3" {
+			*cross = "z3-new"
+		}
 	}
 	t0 := time.Now()
 	c, dir, err := loadCheck(id)
@@ -283,9 +289,9 @@ func cmdRun(id string, args []string) int {
 		if err != nil {
 			return inconclusive(id, *tier, seed, t0, "explore: "+err.Error(), c, nil)
 		}
-		fmt.Printf("[%s] %s: paths=%d completed=%d pruned=%d violations=%d queries=%d (sat %d, unsat %d, unknown %d) solver=%.1fs steps=%d wall=%.1fs\n",
+		fmt.Printf("[%s] %s: paths=%d completed=%d pruned=%d violations=%d queries=%d (sat %d, unsat %d, unknown %d) solver=%.1fs (+values %.1fs, pop %.1fs) steps=%d wall=%.1fs\n",
 			id, e.Func, rep.Paths, rep.Completed, rep.Pruned, len(rep.Violations), rep.Stats.Queries, rep.Stats.Sat, rep.Stats.Unsat, rep.Stats.Unknown,
-			rep.Stats.Time.Seconds(), rep.Steps, rep.Wall.Seconds())
+			rep.Stats.Time.Seconds(), rep.Stats.ValueTime.Seconds(), rep.Stats.PopTime.Seconds(), rep.Steps, rep.Wall.Seconds())
 		results = append(results, entryResult{cfg: e, rep: rep, params: tc.Params})
 	}
 	if len(results) == 0 {
@@ -643,8 +649,9 @@ func solverVersions() string {
 	if solverVer != "" {
 		return solverVer
 	}
-	out, _ := exec.Command("z3", "--version").Output()
-	solverVer = strings.TrimSpace(string(out))
+	out, _ := exec.Command("z3-new", "--version").Output()
+	out2, _ := exec.Command("z3", "--version").Output()
+	solverVer = strings.TrimSpace(string(out)) + " (z3-new, primary); " + strings.TrimSpace(string(out2)) + " (z3, cross-check)"
 	return solverVer
 }
 
